@@ -774,6 +774,12 @@ def io1(F, R):
             ok = has_sub(a, lambda q: q[0] == "un" and q[1] == "Neg")
         R.require(ok, f, "seek:" + var, "SeekFrom::%s must map to %s%s" % (var, target, " with the negated offset" if var == "End" else ""), f.loc(0))
     R.require(any(path_matches(callee_of(t) or "", "File::offset") for b, t in f.calls()), f, "seek:returns-offset", "seek must return the file's new offset", f.loc(0))
+    # every request goes through one of the three checked primitives (which take the lock and validate the handle) before the
+    # position is read back: no arm answers from File::offset() alone (that accessor panics on a stale handle / held lock)
+    offs = [b for b, t in f.calls() if path_matches(callee_of(t) or "", "File::offset")]
+    seeks = [b for b, t in f.calls() if any(path_matches(callee_of(t) or "", x) for x in want.values())]
+    bare = [b for b in offs if b in f.reach([0], cut_blocks=seeks)]
+    R.require(not bare, f, "seek:always-through-a-primitive", "some request (e.g. SeekFrom::Current(0)) reaches File::offset() without going through seek_from_start / seek_from_end / seek_from_current: on a closed handle or inside a directory callback it panics instead of returning an error", f.loc(bare[0]) if bare else f.loc(0))
     # the 64-bit positions of the trait reach the 32-bit primitives only through checked conversions: no `as` cast narrows them
     W_ = {"u8": 8, "i8": 8, "u16": 16, "i16": 16, "u32": 32, "i32": 32, "u64": 64, "i64": 64, "usize": 64, "isize": 64}
     narrow = [(b, i) for b, i, s_ in f.stmts() if s_["k"] == "Assign" and s_["rv"]["k"] == "Cast" and s_["rv"].get("kind") == "IntToInt"
